@@ -247,7 +247,7 @@ def check_c02(prop, tier):
         emitted = run_mc("format", sz, work, res)
         res.exhaustive = True
         docs = distinct_docs(emitted)
-        plans = [("ascii", "plain"), ("uni", "nearint"), ("emoji", "tiny")] + ([("uni", "ints"), ("ascii", "dyadic")] if tier == "thorough" else [])
+        plans = [("ascii", "plain"), ("uni", "nearint"), ("emoji", "tiny"), ("ascii", "thresh")] + ([("uni", "ints"), ("ascii", "dyadic")] if tier == "thorough" else [])
         jobs = []
         start = 0
         for lp, np_ in plans:
@@ -656,7 +656,7 @@ def check_c01(prop, tier):
         res.exhaustive = True
         docs = distinct_docs(emitted)
         # C01's quantifier has quotes, doubled quotes, newlines, '=', digits, Unicode - the format's own keywords are C02's
-        plans = [("plainwords", "plain"), ("plainuni", "nearint"), ("plainwords", "tiny"), ("uni", "plain")] + \
+        plans = [("plainwords", "plain"), ("plainuni", "nearint"), ("plainwords", "tiny"), ("uni", "plain"), ("plainwords", "thresh")] + \
                 ([("plainuni", "ints"), ("plainwords", "dyadic")] if tier == "thorough" else [])
         jobs, start = [], 0
         for lp, np_ in plans:
